@@ -1,5 +1,6 @@
 import TypstyleModel.Props.C11
 import TypstyleModel.Model.Range
+import TypstyleModel.Proofs.ChainSafe
 /-! C05 — totality.  Every function of the model (attributes, printer, renderer, post-pass, range
 entry point, CLI) is a total Lean function: termination is checked by the kernel (structural
 recursion on fuel / trees, and the size measures of `fitting` and `best`). -/
@@ -91,5 +92,24 @@ theorem C05_leading_blanks_are_single_bytes (l : List Char) :
       have : Char.utf8Size ' ' = 1 := by decide
       omega
     · rfl
+
+/-! ### the chain stylist's `docs.remove(0)` (chain.rs:214) -/
+
+/-- Whatever the operand predicate and the operator, operand and fallback converters do, the first
+item `ChainStylist::process` records is never an attached comment (a comment is attached only once a
+body has been seen) — for every list of chain nodes. -/
+theorem C05_chain_first_item_is_not_an_attached_comment (e : Env) (ctx : Ctx) (nodes : List ANode) (operandPred : ANode → Bool)
+    (opConv : Bool → ANode → M (Bool × Option Twin.Doc)) (rhsConv : Ctx → ANode → M (Option Twin.Doc))
+    (fallback : Ctx → ANode → M (Option Twin.Doc)) :
+    Post (CS.processM e {} ctx nodes operandPred opConv rhsConv fallback) (fun cs => headOK cs.items = true) :=
+  processM_head e ctx nodes operandPred opConv rhsConv fallback {} rfl
+
+/-- … and then `print_doc` has a first document to remove: the only partial operation of the chain
+stylist is not reached for a chain that has any item at all (binary chains, dot chains; an *empty*
+chain — no operand and no fallback — is the residual parser assumption). -/
+theorem C05_chain_print_never_panics (e : Env) (cs : CS) (noBreakSingle spaceAroundOp : Bool)
+    (hne : cs.items ≠ []) (hh : headOK cs.items = true) :
+    ∀ s site, (cs.print e noBreakSingle spaceAroundOp).run s ≠ .error (.panic site) :=
+  chain_print_no_panic e cs noBreakSingle spaceAroundOp hne hh
 
 end Typstyle
